@@ -32,7 +32,8 @@ def tonumpy(poly: PolyLike) -> numpy.ndarray:
         raise numpoly.FeatureNotSupported(
             "only constant polynomials can be converted to array."
         )
-    idx = numpy.argwhere(numpy.all(poly.exponents == 0, -1)).item()
-    if poly.size:
-        return numpy.array(poly.coefficients[idx])
+    indices = numpy.argwhere(numpy.all(poly.exponents == 0, -1))
+    if poly.size and len(indices):
+        return numpy.array(poly.coefficients[indices.item()])
+    # no elements, or no constant term among the (all zero) terms kept
     return numpy.zeros(poly.shape, dtype=poly.dtype)
